@@ -261,9 +261,22 @@ def single_edits(sm, wrappers=True):
             E.append({"op": "set-default", "at": pos, "value": dv[0]})
             if M.parse_type(a["type"])[0] != "nn":
                 E.append({"op": "set-default", "at": pos, "value": None})
+    # interface fields retyped together with every implementation (alone the schema would be invalid)
+    for t in sm["types"]:
+        if t["kind"] == "interface":
+            for f in t["fields"]:
+                alts = _named_alternatives(sm, f["type"], "output")[:1] + wrapper_neighbours(f["type"])[:2]
+                for alt in alts:
+                    E.append({"op": "retype-cascade", "interface": t["name"], "field": f["name"], "to": alt})
     # enums
     for t in sm["types"]:
         if t["kind"] == "enum":
+            vals = [v["name"] for v in t["values"]]
+            # client-visible name changes while the Python value stays; Python values change while names stay
+            E.append({"op": "rename-enum-value", "type": t["name"], "value": vals[-1], "to": "RENAMED"})
+            if len(vals) > 1:
+                E.append({"op": "swap-enum-python-values", "type": t["name"], "a": vals[0], "b": vals[1]})
+            E.append({"op": "set-enum-python-value", "type": t["name"], "value": vals[-1], "pyvalue": "other-internal-value"})
             E.append({"op": "add-enum-value", "type": t["name"]})
             for v in t["values"]:
                 pos = ["enum-value", t["name"], v["name"]]
@@ -430,6 +443,48 @@ def apply_edit(sm, e):
             return None
         p["dep"] = e["reason"]
         return sm
+    if op == "retype-cascade":
+        it = M.get_type(sm, e["interface"])
+        if it is None or it["kind"] != "interface":
+            return None
+        targets = [it] + [o for o in sm["types"] if o["kind"] == "object" and e["interface"] in (o.get("interfaces") or ())]
+        n = 0
+        for t in targets:
+            for f in t["fields"]:
+                if f["name"] == e["field"] and f["type"] != e["to"]:
+                    f["type"] = e["to"]
+                    n += 1
+        return sm if n else None
+    if op in ("rename-enum-value", "swap-enum-python-values", "set-enum-python-value"):
+        t = M.get_type(sm, e["type"])
+        if t is None or t["kind"] != "enum":
+            return None
+        by = {v["name"]: v for v in t["values"]}
+        if op == "rename-enum-value":
+            v = by.get(e["value"])
+            if v is None or e["to"] in by:
+                return None
+            v.setdefault("value", v["name"])  # the Python value stays what it was
+            old_name = v["name"]
+            v["name"] = e["to"]
+            # defaults naming the value follow the rename (they denote the same Python value)
+            for pos in positions(sm):
+                p = get_pos(sm, pos)
+                if M.named(p["type"]) == e["type"] and "default" in p:
+                    p["default"] = _rename_in_default(p["default"], old_name, e["to"])
+            return sm
+        if op == "swap-enum-python-values":
+            a, b = by.get(e["a"]), by.get(e["b"])
+            if a is None or b is None:
+                return None
+            va, vb = a.get("value", a["name"]), b.get("value", b["name"])
+            a["value"], b["value"] = vb, va
+            return sm
+        v = by.get(e["value"])
+        if v is None or v.get("value", v["name"]) == e["pyvalue"]:
+            return None
+        v["value"] = e["pyvalue"]
+        return sm
     if op == "add-enum-value":
         t = M.get_type(sm, e["type"])
         if t is None or t["kind"] != "enum" or any(v["name"] == "ADDED" for v in t["values"]):
@@ -494,6 +549,12 @@ def apply_edit(sm, e):
         roots[e["operation"]] = e["to"]
         return sm
     raise ValueError(op)
+
+
+def _rename_in_default(d, old, new):
+    if isinstance(d, list):
+        return [_rename_in_default(x, old, new) for x in d]
+    return new if d == old else d
 
 
 def apply_edits(sm, edits):
